@@ -27,12 +27,19 @@ Record elem := { el_act : act; el_start : list emit; el_in : list emit; el_end :
    spawn (in at_sim_start(0)) a task that sleeps d+1 ns and then sends [h_task], or
    shut itself down (optionally restarting after r ns) when handle_message sees the
    payload [trig], or panic at the end of one callback (its stereotype has on_panic_catch,
-   so Harness::catch swallows the panic and deactivates the module): [XPanic 0 x] in
-   handle_message of payload x, [XPanic 1 st] in at_sim_start(st), [XPanic 2 _] in at_sim_end.
-   A module does at most one of the three: a shutdown drops the tokio runtime and with it the
-   timer slot, and a panic skips the poll of woken tasks (subjects of C05/C09/C13, not of C14).
+   so Harness::catch swallows the panic and deactivates the module): [XPanic 0 x since] in
+   handle_message of payload x, [XPanic 1 st since] in at_sim_start(st), [XPanic 2 _ since] in
+   at_sim_end, each only from simulation time [since] on (since = 0: also in the first
+   start-up; since > 0: only in a later one).  A module that shuts down and restarts may in
+   addition panic in one start-up stage from time [since] on ([XShut trig r (Some (st, since))]):
+   with since > 0 that is a panic in stage st of a RESTART.
+   A timer excludes the other two: a shutdown drops the tokio runtime and with it the timer
+   slot, and a panic skips the poll of woken tasks (subjects of C05/C09/C13, not of C14).
    Uncaught panics are outside C14. *)
-Inductive extra := XNone | XTimer (d : N) | XShut (trig : N) (restart : option N) | XPanic (site trig : N).
+Inductive extra :=
+| XNone | XTimer (d : N)
+| XShut (trig : N) (restart : option N) (pan : option (N * N))
+| XPanic (site trig since : N).
 
 Record handler := { h_stages : N; h_extra : extra;
   h_start : list emit; h_msg : list emit; h_end : list emit; h_task : list emit }.
@@ -155,15 +162,18 @@ Fixpoint incoming_downstream (now m : N) (i : nat) (els : list elem) (s : es) : 
 Inductive kind := KMsg (x : N) | KWake | KStart (stage : N) | KEnd.
 
 (* does the callback of this event end in a (caught) panic? *)
-Definition panics (h : handler) (k : kind) (msg : option N) : bool :=
+Definition panics (now : N) (h : handler) (k : kind) (msg : option N) : bool :=
   match h_extra h with
-  | XPanic site trig =>
+  | XPanic site trig since =>
+    (since <=? now) &&
     match k with
     | KMsg _ => (site =? 0) && (match msg with Some y => y =? trig | None => false end)
     | KStart stage => (site =? 1) && (stage =? trig)
     | KEnd => site =? 2
     | KWake => false
     end
+  | XShut _ _ (Some (st, since)) =>
+    match k with KStart stage => (since <=? now) && (stage =? st) | _ => false end
   | _ => false
   end.
 
@@ -181,19 +191,19 @@ Definition handler_part (now m : N) (h : handler) (k : kind) (msg : option N) (s
     | Some y =>
       let s1 := emits now m Handler (h_msg h) (say m Handler (HHandle y now) s) in
       match h_extra h with
-      | XShut trig r =>
+      | XShut trig r _ =>
         if y =? trig then
           let s2 := say m Handler (HShut r) s1 in
           {| lg := lg s2; buf := buf s2; bud := bud s2;
              shut := Some (match r with Some d => Some (now + d) | None => None end); dead := dead s2 |}
         else s1
-      | _ => panic_if (panics h k msg) m s1
+      | _ => panic_if (panics now h k msg) m s1
       end
     | None => s                                   (* Harness::exec(|| {}) *)
     end
   | KWake => s
-  | KStart stage => panic_if (panics h k msg) m (emits now m Handler (h_start h) (say m Handler (HSimStart stage now) s))
-  | KEnd => panic_if (panics h k msg) m (emits now m Handler (h_end h) (say m Handler (HSimEnd now) s))
+  | KStart stage => panic_if (panics now h k msg) m (emits now m Handler (h_start h) (say m Handler (HSimStart stage now) s))
+  | KEnd => panic_if (panics now h k msg) m (emits now m Handler (h_end h) (say m Handler (HSimEnd now) s))
   end.
 
 (* ... followed by yield_now: a task woken by activate() is polled *)
@@ -372,7 +382,10 @@ Definition flat_log (sc : script) : list entry := flat_map item_log (trace sc).
    mod    := mode nOwn blob*  blob[ handler ]         mode mod 4: 0 default stack, 1 default++own, 2 own, 3 own++default
    handler:= stages(mod 4) xkind(mod 4: 0 none 1 timer 2 shutdown 3 panic) xa xb xc  lp(start) lp(msg) lp(end) lp(task)
              timer: sleeps xa+1 ns;  shutdown: trigger payload xa, restart iff xb odd, after xc ns
-             panic (caught): xb mod 3 = 0 in handle_message of payload xa, 1 in at_sim_start(xa), 2 in at_sim_end
+             panic (caught): xb mod 3 = 0 in handle_message of payload xa, 1 in at_sim_start(xa), 2 in at_sim_end;
+                             only from time xc on
+             optional tail  pf pst psince  (after the four lists; used with shutdown only): pf odd = the module
+             also panics (caught) in at_sim_start(pst) from time psince on
    inj    := kind dst time id                         kind odd = handle_message_on, even = add_message_onto(port) *)
 Definition nxt (l : list N) : N * list N := match l with [] => (0, []) | x :: r => (x, r) end.
 
@@ -403,11 +416,13 @@ Definition dec_elem (b : list N) : elem :=
 Definition dec_handler (b : list N) : handler :=
   let '(st, r) := nxt b in let '(xk, r) := nxt r in
   let '(xa, r) := nxt r in let '(xb, r) := nxt r in let '(xc, r) := nxt r in
-  let '(s, r) := take_lp r in let '(g, r) := take_lp r in let '(e, r) := take_lp r in let '(t, _) := take_lp r in
+  let '(s, r) := take_lp r in let '(g, r) := take_lp r in let '(e, r) := take_lp r in let '(t, r) := take_lp r in
+  let '(pf, r) := nxt r in let '(pst, r) := nxt r in let '(psince, _) := nxt r in
   {| h_stages := st mod 4;
      h_extra := (if xk mod 4 =? 0 then XNone else if xk mod 4 =? 1 then XTimer xa
                  else if xk mod 4 =? 2 then XShut xa (if N.odd xb then Some xc else None)
-                 else XPanic (xb mod 3) xa);
+                                                  (if N.odd pf then Some (pst, psince) else None)
+                 else XPanic (xb mod 3) xa xc);
      h_start := triples s; h_msg := triples g; h_end := triples e; h_task := triples t |}.
 
 (* Module::stack(default) *)
